@@ -83,11 +83,11 @@ def apply_jsonpath(input, path="$", throw_exception_on_failed_match=True):
     https://goessner.net/articles/JsonPath/
     https://www.tbray.org/ongoing/When/201x/2017/04/14/JsonPath-Needs-Work
     """
-    if input == None or path == None:
+    if path == None:
         return {}
     if path == "$":
-        return input
-    result = jsonpath(input, path)
+        return input  # The whole input, even if that is a JSON null.
+    result = jsonpath(input, path)  # Returns False for no match (e.g. null input).
 
     if result == False:
         if throw_exception_on_failed_match:
